@@ -359,7 +359,7 @@ def split_components(f, api, s):
     return comps, outside, i
 
 
-def classify(f, api, s):
+def sep_positions(f, api, s):
     """-> list of (component, kind, run length, position) for each maximal separator run of s;
     kind in leading | internal | trailing | digitless | outside | unparsed"""
     comps, outside, end = split_components(f, api, s)
@@ -397,7 +397,7 @@ def classify(f, api, s):
 def position_violations(f, api, s):
     """separator runs of s standing where the flags do not allow them: list of (component, reason)"""
     bad = []
-    for comp, kind, length, pos in classify(f, api, s):
+    for comp, kind, length, pos in sep_positions(f, api, s):
         if kind in ("outside", "unparsed"):
             bad.append((comp, kind))
             continue
